@@ -129,7 +129,64 @@ def dict_in_function(fi: FuncInfo, var: str) -> Optional[Dict[str, str]]:
     return None
 
 
-def dict_by_key(fi: FuncInfo, key_text: str) -> Optional[Tuple[Dict[str, str], str]]:
+def expand_enum_table(repo, fi: FuncInfo, dc: ast.AST) -> Optional[ast.Dict]:
+    """`{K(m): V(m) for m in <Enum class of the repository>}` written out: the members of an enum are known from its class
+    body, so the table is a constant — `m.name` / `m.value` / `m` are substituted per member, and an enum member taken by
+    its name (`E.Value("X")`, `getattr(E, "X")`, `E["X"]`) is `E.X`."""
+    import copy
+
+    if not (isinstance(dc, ast.DictComp) and len(dc.generators) == 1 and not dc.generators[0].ifs and isinstance(dc.generators[0].target, ast.Name) and isinstance(dc.generators[0].iter, ast.Name)):
+        return None
+    var, ename = dc.generators[0].target.id, dc.generators[0].iter.id
+    ci = None
+    r = repo.resolve_dotted(fi.file, ename)
+    from ..core import ClassInfo as _CI
+
+    if isinstance(r, _CI):
+        ci = r
+    if ci is None or not any("Enum" in b for b in ci.bases):
+        return None
+    members = [(st.targets[0].id, st.value) for st in ci.node.body if isinstance(st, ast.Assign) and len(st.targets) == 1 and isinstance(st.targets[0], ast.Name) and not st.targets[0].id.startswith("_")]
+    if not members:
+        return None
+
+    def inst(e, nm, val):
+        class S(ast.NodeTransformer):
+            def visit_Attribute(self, node):
+                if isinstance(node.value, ast.Name) and node.value.id == var:
+                    if node.attr == "name":
+                        return ast.copy_location(ast.Constant(nm), node)
+                    if node.attr == "value":
+                        return ast.copy_location(copy.deepcopy(val), node)
+                return self.generic_visit(node)
+
+            def visit_Name(self, node):
+                if node.id == var and isinstance(node.ctx, ast.Load):
+                    return ast.copy_location(ast.Attribute(ast.Name(ename, ast.Load()), nm, ast.Load()), node)
+                return node
+
+        class M(ast.NodeTransformer):
+            def visit_Call(self, node):
+                self.generic_visit(node)
+                f = node.func
+                if isinstance(f, ast.Attribute) and f.attr == "Value" and len(node.args) == 1 and isinstance(node.args[0], ast.Constant) and isinstance(node.args[0].value, str):
+                    return ast.copy_location(ast.Attribute(f.value, node.args[0].value, ast.Load()), node)
+                if isinstance(f, ast.Name) and f.id == "getattr" and len(node.args) == 2 and isinstance(node.args[1], ast.Constant) and isinstance(node.args[1].value, str):
+                    return ast.copy_location(ast.Attribute(node.args[0], node.args[1].value, ast.Load()), node)
+                return node
+
+            def visit_Subscript(self, node):
+                self.generic_visit(node)
+                if isinstance(node.slice, ast.Constant) and isinstance(node.slice.value, str) and node.slice.value.isidentifier() and isinstance(node.value, (ast.Name, ast.Attribute)):
+                    return ast.copy_location(ast.Attribute(node.value, node.slice.value, ast.Load()), node)
+                return node
+
+        return ast.fix_missing_locations(M().visit(S().visit(copy.deepcopy(e))))
+
+    return ast.Dict([inst(dc.key, nm, v) for nm, v in members], [inst(dc.value, nm, v) for nm, v in members])
+
+
+def dict_by_key(fi: FuncInfo, key_text: str, repo=None) -> Optional[Tuple[Dict[str, str], str]]:
     """The table subscripted with `key_text` in fi (`<table>[<key>]`): a dict literal in place, or a local / module-level
     name bound to one.  Returns ({unparsed key: unparsed value}, text of the table expression as written).
     Found by role, not by the table's name: where the literal lives (local, hoisted constant) does not matter."""
@@ -155,6 +212,10 @@ def dict_by_key(fi: FuncInfo, key_text: str) -> Optional[Tuple[Dict[str, str], s
                             tg = st.targets[0] if isinstance(st, ast.Assign) else st.target
                             if isinstance(tg, ast.Name) and tg.id == tbl.id and isinstance(st.value, ast.Dict):
                                 lit = st.value
+                            elif isinstance(tg, ast.Name) and tg.id == tbl.id and repo is not None and isinstance(st.value, ast.DictComp):
+                                lit = expand_enum_table(repo, fi, st.value)  # a table derived from an enum of the repository
+            if lit is None and repo is not None and isinstance(tbl, ast.DictComp):
+                lit = expand_enum_table(repo, fi, tbl)
             if lit is not None:
                 d = au.dict_literal(lit)
                 if d is not None:
